@@ -56,6 +56,25 @@ fn pool_del_tot(id: usize) -> (i64, i64) {
     else { let (a, b) = MERGED[id - POOL.len() - 1]; (POOL[a - 1].1.min(POOL[b - 1].1), pool_total(a - 1).max(pool_total(b - 1))) }
 }
 const NPOOL: usize = 14;
+/// What the target must hold once pool timeline `id` has ended (C18): the 100% values - for a reversing timeline the
+/// ORIGINAL 0% values (the type's default where the shape has no 0% keyframe) - per property the shape animates.
+/// Stated here from the shapes themselves, independently of Timeline::update.
+fn terminal_single(id: usize) -> (Option<f32>, Option<f32>) {
+    let (_, _, r, rev, shape) = POOL[id - 1];
+    if r == -2 { return (None, None); }
+    match (shape, rev) {
+        (0, false) => (Some(64.0), None), (0, true) => (Some(0.0), None),
+        (1, false) => (Some(40.0), Some(5.0)), (1, true) => (Some(8.0), Some(1.0)),
+        (2, false) => (Some(-24.0), None), (2, true) => (Some(0.0), None),
+        (3, false) => (Some(30.0), Some(3.0)), (3, true) => (Some(0.0), Some(0.0)),
+        (5, false) => (None, Some(20.0)), (5, true) => (None, Some(2.0)),
+        (_, false) => (Some(0.0), None), (_, true) => (Some(100.0), None),
+    }
+}
+fn terminal(id: usize) -> (Option<f32>, Option<f32>) {
+    if id <= POOL.len() { terminal_single(id) }
+    else { let (a, b) = MERGED[id - POOL.len() - 1]; let (ta, tb) = (terminal_single(a), terminal_single(b)); (tb.0.or(ta.0), tb.1.or(ta.1)) }
+}
 
 struct Rng(u64);
 impl Rng {
@@ -302,6 +321,13 @@ fn expect_a(c: &Value, prev_c: &Value, prev: [i64; 2], got: [i64; 2], hist: &[[i
         if ovf >= 0 { let (sx, sy) = f2(hist[(ovf - 1) as usize]); tl.start_with(&A { x: sx, y: sy }); }
         tl.update(&mut v, a[3].as_i64().unwrap() as f32 * TICK);
     });
+    // at or after the end the expectation is the terminal values stated with the pool, not the evaluation
+    let id = a[1].as_i64().unwrap() as usize;
+    if a[3].as_i64().unwrap() >= pool_del_tot(id).1 {
+        let (tx, ty) = terminal(id);
+        if let Some(x) = tx { v.x = x; }
+        if let Some(y) = ty { v.y = y; }
+    }
     bits(v.x, v.y)
 }
 
@@ -345,6 +371,11 @@ fn judge(trace: &str, preds: &str) -> Value {
                     let (px, py) = f2(pb);
                     let mut v = B { x: px, y: py };
                     pool_with!(B, c[1].as_i64().unwrap(), tl => tl.update(&mut v, c[3].as_i64().unwrap() as f32 * TICK));
+                    if c[3].as_i64().unwrap() >= pool_del_tot(c[1].as_i64().unwrap() as usize).1 {
+                        let (tx, ty) = terminal(c[1].as_i64().unwrap() as usize);
+                        if let Some(x) = tx { v.x = x; }
+                        if let Some(y) = ty { v.y = y; }
+                    }
                     exp_b = bits(v.x, v.y); evals += 1;
                 }
                 let exp_2 = if hase2 { expect_a(c2, &prev_c2, p2, got_2, &[], &mut evals) } else { got_2 };
